@@ -65,13 +65,15 @@ type Client struct {
 // NewClient creates a client with unbuffered channels (as Relay.ServeHTTP does).
 func (sim *Sim) NewClient(parent context.Context, name string, script []Op) *Client {
 	ctx, cancel := context.WithCancel(parent)
-	return &Client{
+	c := &Client{
 		Name: name, Sim: sim,
 		Recv: make(chan mocrelay.ClientMsg), Send: make(chan mocrelay.ServerMsg),
 		Ctx: ctx, Cancel: cancel, Script: script,
 		resume: make(chan struct{}, 1), kick: make(chan struct{}, 1), stop: make(chan struct{}),
 		gotCh: make(chan struct{}, 1),
 	}
+	sim.Cleanup(func() { c.Cancel(); c.Stop() })
+	return c
 }
 
 // Serve starts the handler session and the two actors.
